@@ -4,7 +4,7 @@ SRE_ASSUME = [
     "SRE: double arithmetic is interpreted over the reals (rounding, overflow to inf, NaN generation outside the claim)",
     "SRE: verified artefact is the scalar clang-14 -O1 -DNDEBUG -DEIGEN_DONT_VECTORIZE build of /repo's current sources",
     "SRE: paths dividing by a symbolic zero / taking sqrt of a symbolic negative are excluded (counted as div_guards/sqrt_guards)",
-    "SRE: thread pool constructed without OS threads (pool_t::map inline), nano::make_rng() seeded with 42 (link-time overrides, harness/sre/sre_support.cpp)",
+    "SRE: thread pool constructed without OS threads (pool_t::map inline; configurations with threads=K: K workers, enqueue path, tasks run sequentially by the completion barrier with scheduled worker ids), nano::make_rng() seeded with 42 (link-time overrides, harness/sre/sre_support.cpp)",
 ]
 
 PROPERTIES = {}
@@ -17,6 +17,9 @@ SRE_TECH = "bounded symbolic execution of the real code over symbolic reals (LLV
 SRE_NOTE = ("trusted: clang-14/LLVM-14, symfp pass + symrt runtime (cross-validated against the un-instrumented build on every run), z3 4.8.12 (nlsat) and, for the queries z3 leaves unknown, cvc5 1.0; "
             "assumes real arithmetic (no rounding), scalar -O1 code path, stated input boxes and sizes; inline thread pool and fixed RNG seed")
 
+LIFT_TECH = "bounded model checking (CBMC 6.11, SAT) of C lifted from the clang-14 LLVM IR of the real functions; all indices/dimensions/bytes symbolic within stated ranges"
+LIFT_NOTE = ("trusted: clang-14 -O1, ir2c translator (validated differentially against the real C++ on every run), CBMC 6.11; bounded by --unwind with unwinding assertions; "
+             "malloc never fails; every harness has a witness twin whose assert(0) must be reachable")
 SBV_TECH = ("bounded symbolic execution of the real code at the LLVM-IR level (own KLEE-style interpreter over the clang-14 bitcode of libnano and the harness, "
             "bit-vector terms, fork per feasible branch, symbolic pointers merged over their feasible targets); z3 (QF_BV: lazy SMT core, then bit-blasting + SAT) decides every obligation")
 SBV_NOTE = ("trusted: clang-14/LLVM-14 -O1 bitcode, the SBV interpreter (cross-validated against the native build of the same bitcode on every run), z3 4.8.12; "
@@ -94,7 +97,7 @@ PROPERTIES["C14"] = {
     "units": [
         {"engine": "sre", "harness": "C14_scaling", "sources": ["C14_scaling.cpp"],
          "quick": ["f=rrr;n=3;fs=2;ts=0", "f=rrr;n=3;fs=3;ts=3", "f=rrr;n=3;fs=1;ts=1;miss=1", "f=rsr;n=3;miss=1;fs=1;ts=2",
-                   "f=rmr;n=3;fs=3;ts=2", "f=rrr;n=3;miss=2;fs=0;ts=3", "f=rrr;n=3;miss=3;fs=3;ts=0", "f=Sr;n=2;fs=1;ts=1"],
+                   "f=rmr;n=3;fs=3;ts=2", "f=rrr;n=3;miss=2;fs=0;ts=3", "f=rrr;n=3;miss=3;fs=3;ts=0", "f=Sr;n=2;fs=1;ts=1", "f=rrr;n=3;fs=2;ts=0;threads=3;sched=0", "f=rrr;n=3;fs=1;ts=1;miss=1;threads=2;sched=2"],
          "thorough": ["f=rrr;n=3;fs=%d;ts=%d;miss=%d" % (a, b, m) for a in range(4) for b in range(4) for m in (0, 1)] +
                      ["f=rsr;n=3;miss=1;fs=1;ts=2", "f=rmr;n=3;fs=3;ts=2", "f=rrr;n=3;miss=2;fs=0;ts=3", "f=rrr;n=3;miss=3;fs=3;ts=0",
                       "f=Sr;n=2;fs=1;ts=1", "f=Sr;n=2;fs=3;ts=2", "f=rrr;n=4;fs=2;ts=1", "f=rrr;n=4;fs=3;ts=3;miss=4", "f=srmr;n=3;fs=2;ts=3"],
@@ -215,7 +218,7 @@ PROPERTIES["C02"] = {
     "assumptions": SRE_ASSUME + ["oracle function (fresh symbolic value/gradient per evaluation, functionally consistent); convex flag set for solvers that require it"],
     "bounds": {"dims": "1..2", "max_evals": "10..14", "path budget": "exploration of solvers with deep inner loops (asga*, fgm/dgm/pgm, osga) is truncated by the path/time budget; coverage counts are in the units list"},
     "outside": ["termination and budget overshoot beyond the explored depth", "monotonicity clause (value not larger than the start value): not asserted for oracle functions",
-                "gradient-sampling solvers (gs, ags, gs-lbfgs, ags-lbfgs) and bundle solvers (rqb, fpba1, fpba2): their inner QP solves on symbolic data exceed the solver budget (measured: 0 complete paths in 25 s) - not covered",
+                "gradient-sampling solvers (gs, ags, gs-lbfgs, ags-lbfgs): their inner QP solves on symbolic data exceed the solver budget - not covered; bundle solvers (rqb, fpba1, fpba2) are covered only with bundle::max_size = 2 (analytic multiplier update, unit C02_bundle, exploration truncated by the path/time budget)",
                 "penalty and augmented-Lagrangian solvers: see C05"],
     "units": [
         {"engine": "sre", "harness": "C01_solver", "sources": ["C01_solver.cpp"],
@@ -230,6 +233,11 @@ PROPERTIES["C02"] = {
                       "solver=fgm;d=1;conv=1", "solver=dgm;d=1;conv=1", "solver=pgm;d=1;conv=1"],
          "budget": {"quick": {"deadline_s": 45, "max_paths": 1500, "query_s": 3}, "thorough": {"deadline_s": 600, "max_paths": 100000, "query_s": 20}},
          "encoded": _SOLVER_ENC},
+        {"engine": "sre", "harness": "C02_bundle", "sources": ["C01_solver.cpp"],
+         "quick": ["solver=rqb;d=1;conv=1;smooth=0;bsize=2", "solver=fpba1;d=1;conv=1;smooth=0;bsize=2"],
+         "thorough": ["solver=%s;d=1;conv=1;smooth=0;bsize=2" % sv for sv in ("rqb", "fpba1", "fpba2")] + ["solver=rqb;d=2;conv=1;smooth=0;bsize=2", "solver=fpba2;d=1;conv=1;smooth=0;bsize=2;evals=14"],
+         "budget": {"quick": {"deadline_s": 40, "max_paths": 1500, "query_s": 3}, "thorough": {"deadline_s": 600, "max_paths": 100000, "query_s": 20}},
+         "encoded": _SOLVER_ENC + ["nano::solver_rqb_t::do_minimize", "nano::solver_fpba_t::do_minimize", "nano::bundle_t (max_size 2: analytic multiplier update)", "nano::csearch_t", "nano::proximity_t", "nano::nesterov sequences"]},
     ],
 }
 
@@ -295,9 +303,6 @@ PROPERTIES["C19"] = {
     ],
 }
 
-LIFT_TECH = "bounded model checking (CBMC 6.11, SAT) of C lifted from the clang-14 LLVM IR of the real functions; all indices/dimensions/bytes symbolic within stated ranges"
-LIFT_NOTE = ("trusted: clang-14 -O1, ir2c translator (validated differentially against the real C++ on every run), CBMC 6.11; bounded by --unwind with unwinding assertions; "
-             "malloc never fails; every harness has a witness twin whose assert(0) must be reachable")
 _C16_ROOTS = ["k_offset1", "k_offset2", "k_offset3", "k_offset4", "k_size4", "k_at3", "k_sub3", "k_vec3", "k_mat3", "k_sub4", "k_reshape3", "k_reshape2to3", "k_slice3",
               "k_idiv", "k_iround", "k_integral1_i8_i32", "k_integral2_i8_i32", "k_integral2_i32_i64", "k_integral3_u8_i64"]
 _C16_H = [{"func": "h_offset4", "unwind": 8, "desc": "rank-4 offset: in range, row-major formula, injective, order preserving; all dims in 0..6 and indices symbolic"},
@@ -361,7 +366,7 @@ PROPERTIES["C08"] = {
     "outside": ["16 threads, schemas beyond the enumerated ones", "structured integer features, uint32/uint64/int16/uint8 scalar storage, more than 3 samples with symbolic masks", "pairwise / product / gradient generators"],
     "units": [_C08_LIFT,
         {"engine": "sre", "harness": "C08_views", "sources": ["C08_views.cpp"],
-         "quick": ["f=rsmr;n=3", "f=rSsr;n=3;miss=4;df=1", "f=rrSr;n=4;miss=1;df=2", "f=smur;n=3;cls=256", "f=sur;n=3;cls=256;df=1", "f=sur;n=3;cls=255", "f=sur;n=3;cls=257", "f=rsmr;n=3;order=0;miss=0"],
+         "quick": ["f=rsmr;n=3", "f=rSsr;n=3;miss=4;df=1", "f=rrSr;n=4;miss=1;df=2", "f=smur;n=3;cls=256", "f=sur;n=3;cls=256;df=1", "f=sur;n=3;cls=255", "f=sur;n=3;cls=257", "f=rsmr;n=3;order=0;miss=0", "f=rsmr;n=3;threads=3;sched=2", "f=rSsr;n=3;miss=4;df=1;threads=2;sched=1"],
          "thorough": ["f=%s;n=%d;miss=%d;df=%d;order=%d" % (f, n, mi, df, o) for f in ("rsmr", "rSsr", "rrSr", "msrSr") for (n, mi) in ((3, 1), (4, 4), (5, 0)) for df in (0, 1) for o in (0, 1)] +
                      ["f=%s;n=3;cls=%d;df=%d" % (f, c, df) for f in ("smur", "sur", "usr") for c in (2, 255, 256, 257) for df in (0, 1)],
          "encoded": ["nano::dataset_t::{flatten, select, targets, drop, undrop, shuffle, unshuffle, shuffled, columns, column2feature, feature}", "nano::elemwise_generator_t<identity>::{flatten, select_*}",
@@ -487,24 +492,29 @@ PROPERTIES["C09"] = {
     "technique": SRE_TECH,
     "explanation": "C09: linear::function_t and gboost::{bias,scale,grads}_function_t through the real datasource -> dataset -> iterator -> loss stack on symbolic float64 cells.",
     "assumptions": SRE_ASSUME + ["cells boxed to [-8,8]; l1,l2 > 0 symbolic when enabled", "losses covered: mse, mae, m-hinge, m-squared-hinge (reference formulas written independently in the harness)"],
-    "bounds": {"samples": "2..3", "inputs": "2 features (scalar / categorical one-hot)", "outputs": "1 (regression) or 3 (classification)", "batch": "1, 2, 100", "scaling": "all 4 modes"},
-    "outside": ["thread-count independence (needs schedules; only the single-thread inline pool is executed)", "losses with exp/log (logistic, classnll, exponential, savage, tangent, cauchy): see C06", "1e-9 relative floating-point re-association (identities are proved over the reals)"],
+    "bounds": {"samples": "2..3", "inputs": "2 features (scalar / categorical one-hot)", "outputs": "1 (regression) or 3 (classification)", "batch": "1, 2, 100", "scaling": "all 4 modes", "workers": "1..4 (sequentialised)"},
+    "outside": ["thread-count independence under REAL concurrency: the `threads=K` configurations run the real enqueue path of pool_t::map with K workers but sequentialised (the completion barrier drains the queue on the calling thread; worker ids by round-robin / last / reversed / arbitrary symbolic choice): every assignment of batches to workers and the reduction over per-worker accumulators are covered, interleavings and data races are not", "losses with exp/log (logistic, classnll, exponential, savage, tangent, cauchy): see C06", "1e-9 relative floating-point re-association (identities are proved over the reals)"],
     "units": [
         {"engine": "sre", "harness": "C09_linear", "sources": ["C09_linear.cpp"],
          "quick": ["f=rrr;n=3;loss=mse", "f=rrr;n=3;loss=mse;reg=3;miss=1;sc=1", "f=rsr;n=3;loss=mse;sc=2;reg=2;batch=2", "f=rrr;n=3;loss=mse;sc=3;cache=1", "f=rrr;n=2;loss=mae;reg=3;miss=1",
-                   "f=rrr;n=3;loss=mae;reg=1;batch=2", "f=rrs;n=1;loss=m-hinge;reg=1", "f=rrs;n=1;loss=m-squared-hinge;reg=2;sc=2", "f=rmr;n=3;loss=mse;miss=4;cache=1"],
+                   "f=rrr;n=3;loss=mae;reg=1;batch=2", "f=rrs;n=1;loss=m-hinge;reg=1", "f=rrs;n=1;loss=m-squared-hinge;reg=2;sc=2", "f=rmr;n=3;loss=mse;miss=4;cache=1",
+                   "f=rrr;n=3;loss=mse;reg=3;batch=1;threads=2;sched=0", "f=rrr;n=3;loss=mse;reg=3;batch=1;threads=3;sched=2", "f=rrr;n=3;loss=mae;reg=1;batch=1;threads=3;sched=1", "f=rrr;n=2;loss=mse;batch=1;threads=2;sched=3",
+                   "f=rrr;n=3;loss=mse;sc=3;cache=1;batch=2;threads=2;sched=0"],
          "thorough": ["f=rrr;n=3;loss=mse;sc=%d;reg=%d;miss=%d;batch=%d;cache=%d" % (sc, r, m, b, c) for sc in range(4) for (r, m, b, c) in ((0, 0, 100, 0), (3, 1, 2, 1), (1, 2, 1, 0))] +
                      ["f=rrr;n=3;loss=mae;reg=%d;miss=%d" % (r, m) for r in (0, 3) for m in (0, 1)] + ["f=rrs;n=2;loss=%s;reg=%d" % (l, r) for l in ("m-hinge", "m-squared-hinge") for r in (0, 3)] +
-                     ["f=rsr;n=3;loss=mse;sc=2;reg=2;batch=2", "f=rmr;n=3;loss=mse;miss=4;cache=1", "f=srr;n=4;loss=mse;reg=2"],
+                     ["f=rsr;n=3;loss=mse;sc=2;reg=2;batch=2", "f=rmr;n=3;loss=mse;miss=4;cache=1", "f=srr;n=4;loss=mse;reg=2"] +
+                     ["f=rrr;n=3;loss=%s;reg=3;batch=%d;threads=%d;sched=%d" % (l, b, t, sc) for l in ("mse", "mae") for (b, t, sc) in ((1, 2, 0), (1, 3, 2), (1, 3, 1), (2, 2, 2), (1, 4, 0))] + ["f=rrr;n=3;loss=mse;batch=1;threads=2;sched=3", "f=rrr;n=2;loss=mse;batch=1;threads=3;sched=3"],
          "budget": {"quick": {"deadline_s": 90, "max_paths": 20000}, "thorough": {"deadline_s": 600, "max_paths": 300000}},
          "encoded": ["nano::linear::function_t::{ctor, do_vgrad}", "nano::linear::predict", "nano::linear::accumulator_t", "nano::sum_reduce", "nano::flatten_iterator_t::{loop, flatten, targets, scaling, batch, cache_*}",
                      "nano::scalar_stats_t::scale", "nano::flatten_loss_t<mse/mae/hinge/squared-hinge>::{value, vgrad}", "nano::dataset_t::{flatten, targets}"]},
         {"engine": "sre", "harness": "C09_gboost", "sources": ["C09_gboost.cpp"],
-         "quick": ["n=3;loss=mse", "n=3;loss=mse;sub=1;batch=2", "n=2;loss=mae;batch=1", "n=3;loss=mae;part=bias", "n=3;loss=mae;part=scale;sub=1", "n=3;loss=mse;part=scale;groups=1;unas=2", "n=3;loss=mae;part=scale;groups=1;unas=5", "n=3;loss=mse;part=scale;groups=1;unas=0", "n=3;loss=mse;part=scale;groups=3;unas=0",
+         "quick": ["n=3;loss=mse", "n=3;loss=mse;sub=1;batch=2", "n=2;loss=mae;batch=1", "n=3;loss=mae;part=bias", "n=3;loss=mae;part=scale;sub=1", "n=3;loss=mse;part=scale;groups=1;unas=2", "n=3;loss=mae;part=scale;groups=1;unas=5", "n=3;loss=mse;part=scale;groups=1;unas=0", "n=3;loss=mse;part=scale;groups=3;unas=0", "n=3;loss=mse;batch=1;threads=3;sched=0", "n=3;loss=mae;part=scale;batch=1;threads=2;sched=2", "n=3;loss=mse;part=grads;batch=1;threads=3;sched=1",
+                   "n=2;loss=mse;part=bias;batch=1;threads=2;sched=3",
                    "n=3;loss=mae;part=grads", "n=1;loss=m-hinge;tk=s;part=scale", "n=1;loss=m-hinge;tk=s;part=grads", "n=2;loss=m-hinge;tk=s;part=bias"],
          "thorough": ["n=%d;loss=%s;part=%s;sub=%d;batch=%d" % (n, l, p, s, b) for n in (2, 3) for l in ("mse", "mae") for p in ("bias", "scale", "grads") for (s, b) in ((0, 100), (1, 2))] +
                      ["n=2;loss=m-hinge;tk=s;part=%s" % p for p in ("bias", "scale", "grads")] +
-                     ["n=3;loss=%s;part=scale;groups=%d;unas=%d" % (l, g, u) for l in ("mse", "mae") for (g, u) in ((1, 2), (1, 5), (1, 0), (1, 7), (3, 0), (3, 4), (2, 0))],
+                     ["n=3;loss=%s;part=scale;groups=%d;unas=%d" % (l, g, u) for l in ("mse", "mae") for (g, u) in ((1, 2), (1, 5), (1, 0), (1, 7), (3, 0), (3, 4), (2, 0))] +
+                     ["n=3;loss=%s;part=%s;batch=1;threads=%d;sched=%d" % (l, p, t, sc) for l in ("mse", "mae") for p in ("bias", "scale", "grads") for (t, sc) in ((2, 0), (3, 2), (3, 1))] + ["n=2;loss=mse;part=bias;batch=1;threads=2;sched=3"],
          "budget": {"quick": {"deadline_s": 90, "max_paths": 20000}, "thorough": {"deadline_s": 600, "max_paths": 300000}},
          "encoded": ["nano::gboost::bias_function_t::do_vgrad", "nano::gboost::scale_function_t::do_vgrad", "nano::gboost::grads_function_t::{do_vgrad, gradients}", "nano::gboost::accumulator_t", "nano::cluster_t::group",
                      "nano::targets_iterator_t::loop", "nano::sum_reduce"]},
@@ -520,12 +530,13 @@ PROPERTIES["C10"] = {
     "assumptions": SRE_ASSUME + ["gradients boxed to [-8,8]; feature cells symbolic in [-8,8] (cx=0) or concrete (cx=1)", "one output (regression target)", "RSS criterion (make_score clamps at 1e3*epsilon; reference clamps identically)"],
     "bounds": {"samples": "3..4", "features": "1..3 scalar / 1..2 categorical (3 classes)", "missing patterns": "0, 1", "sample subsets": "all / with repetition"},
     "outside": ["decision trees of depth > 1; optimality of hinge with fully symbolic features and gradients (nlsat returns unknown: unit C10_more uses concrete feature values and 1-3 symbolic gradients, thorough tier attempts the symbolic case)",
-                "k-best / k-split tables: only the clauses the property states for every learner (zero where unassigned, constant per group, scale); the equality score = RSS of own predictions is NOT demanded of them (see DESIGN.md: k-best tables with >= 2 labels violate it)", "16 threads", "more than 4 samples with fully symbolic data (nlsat returns unknown on the optimality inequalities)", "aic/aicc/bic criteria (log)"],
+                "k-best / k-split tables: only the clauses the property states for every learner (zero where unassigned, constant per group, scale); the equality score = RSS of own predictions is NOT demanded of them (see DESIGN.md: k-best tables with >= 2 labels violate it)", "real concurrency (the threads=K configurations run the enqueue path sequentialised: any assignment of features to workers, min-reduction over per-worker caches)", "more than 4 samples with fully symbolic data (nlsat returns unknown on the optimality inequalities)", "aic/aicc/bic criteria (log)"],
     "units": [
         {"engine": "sre", "harness": "C10_wlearner", "sources": ["C10_wlearner.cpp"],
          "quick": ["wl=stump;f=rr;n=3", "wl=stump;f=rrr;n=3;miss=1", "wl=stump;f=rrr;n=4;cx=1;sub=1", "wl=affine;f=rr;n=3", "wl=affine;f=rrr;n=4;cx=1", "wl=affine;f=rrr;n=3;cx=1;miss=1",
-                   "wl=dense-table;f=sr;n=3", "wl=dense-table;f=ssr;n=4;miss=1", "wl=dense-table;f=smr;n=4;cx=1"],
-         "thorough": ["wl=stump;f=rr;n=3", "wl=stump;f=rr;n=4", "wl=stump;f=rrr;n=3;miss=1", "wl=stump;f=rrr;n=4;sub=1", "wl=stump;f=rrr;n=4;cx=1;sub=1", "wl=stump;f=rrrr;n=4;cx=1;miss=1",
+                   "wl=dense-table;f=sr;n=3", "wl=dense-table;f=ssr;n=4;miss=1", "wl=dense-table;f=smr;n=4;cx=1",
+                   "wl=stump;f=rrr;n=4;cx=1;sub=1;threads=3;sched=2", "wl=affine;f=rrr;n=4;cx=1;threads=2;sched=1", "wl=dense-table;f=ssr;n=4;miss=1;threads=2;sched=3"],
+         "thorough": ["wl=stump;f=rrr;n=4;cx=1;sub=1;threads=3;sched=2", "wl=affine;f=rrr;n=4;cx=1;threads=2;sched=1", "wl=dense-table;f=ssr;n=4;miss=1;threads=2;sched=3", "wl=stump;f=rrrr;n=4;cx=1;miss=1;threads=4;sched=0", "wl=stump;f=rr;n=3", "wl=stump;f=rr;n=4", "wl=stump;f=rrr;n=3;miss=1", "wl=stump;f=rrr;n=4;sub=1", "wl=stump;f=rrr;n=4;cx=1;sub=1", "wl=stump;f=rrrr;n=4;cx=1;miss=1",
                       "wl=affine;f=rr;n=3", "wl=affine;f=rr;n=4", "wl=affine;f=rrr;n=4;cx=1", "wl=affine;f=rrr;n=3;cx=1;miss=1", "wl=affine;f=rrrr;n=4;cx=1;sub=1",
                       "wl=dense-table;f=sr;n=3", "wl=dense-table;f=sr;n=4;sub=1", "wl=dense-table;f=ssr;n=4;miss=1", "wl=dense-table;f=smr;n=4;cx=1", "wl=dense-table;f=msr;n=4;miss=4"],
          "budget": {"quick": {"deadline_s": 90, "max_paths": 20000}, "thorough": {"deadline_s": 900, "max_paths": 300000, "query_s": 30}},
@@ -541,8 +552,8 @@ PROPERTIES["C10"] = {
         {"engine": "sre", "harness": "C10_more", "sources": ["C10_more.cpp"],
          "quick": ["wl=hinge;f=rr;n=4;cx=1;gsym=2", "wl=hinge;f=rrr;n=5;cx=1;gsym=1", "wl=hinge;f=rrr;n=4;cx=1;gsym=2;miss=1", "wl=hinge;f=rrr;n=5;cx=1;gsym=2;sub=1",
                    "wl=dstep-table;f=sr;n=5;gsym=2", "wl=dstep-table;f=ssr;n=4;miss=1;gsym=3", "wl=dtree;f=rrr;n=4;cx=1;gsym=2", "wl=dtree;f=rr;n=5;cx=1;gsym=2;miss=1",
-                   "wl=kbest-table;f=sr;n=4;gsym=3", "wl=ksplit-table;f=ssr;n=4;gsym=3"],
-         "thorough": ["wl=hinge;f=%s;n=%d;cx=1;gsym=%d;miss=%d;sub=%d" % t for t in (("rr", 4, 2, 0, 0), ("rrr", 5, 1, 0, 0), ("rrr", 4, 2, 1, 0), ("rrr", 5, 2, 0, 1), ("rrrr", 5, 2, 1, 0), ("rr", 6, 2, 0, 0), ("rr", 4, 3, 0, 0))] +
+                   "wl=kbest-table;f=sr;n=4;gsym=3", "wl=ksplit-table;f=ssr;n=4;gsym=3", "wl=hinge;f=rrr;n=4;cx=1;gsym=2;miss=1;threads=2;sched=1", "wl=dstep-table;f=ssr;n=4;miss=1;gsym=3;threads=2;sched=2"],
+         "thorough": ["wl=hinge;f=rrr;n=4;cx=1;gsym=2;miss=1;threads=2;sched=1", "wl=dstep-table;f=ssr;n=4;miss=1;gsym=3;threads=2;sched=2", "wl=hinge;f=rrr;n=5;cx=1;gsym=2;threads=3;sched=3"] + ["wl=hinge;f=%s;n=%d;cx=1;gsym=%d;miss=%d;sub=%d" % t for t in (("rr", 4, 2, 0, 0), ("rrr", 5, 1, 0, 0), ("rrr", 4, 2, 1, 0), ("rrr", 5, 2, 0, 1), ("rrrr", 5, 2, 1, 0), ("rr", 6, 2, 0, 0), ("rr", 4, 3, 0, 0))] +
                      ["wl=hinge;f=rr;n=3", "wl=hinge;f=rr;n=3;cx=1"] +
                      ["wl=dstep-table;f=%s;n=%d;gsym=%d;miss=%d" % t for t in (("sr", 5, 2, 0), ("ssr", 4, 3, 1), ("sr", 4, 4, 0), ("ssr", 5, 2, 4))] +
                      ["wl=dtree;f=rrr;n=4;cx=1;gsym=2", "wl=dtree;f=rr;n=5;cx=1;gsym=2;miss=1", "wl=dtree;f=rrr;n=4;cx=1;gsym=3;sub=1", "wl=kbest-table;f=sr;n=4;gsym=3", "wl=kbest-table;f=ssr;n=5;gsym=2;miss=1",
